@@ -76,10 +76,10 @@ PROPS["C14"] = dict(
     explanation="guards extracted twice (refusal: panic! => diverging call, no-trap: panic! => unreachable obligation); wrappers carry an inserted "
                 "ghost assertion of gate_spec immediately before the call of the endpoint implementation.",
     unverified_links=[
-        "value of next_block_headers_max_height() over histories (NextBlockHeaders is entry-API maps + header hashing: neither tool)",
-        "canister/src/main.rs candid dispatch; get_config/get_blockchain_info/http_request contain no guard call (by inspection of the extracted text only)",
+        "value of next_block_headers_max_height() over histories (NextBlockHeaders is entry-API maps + header hashing: neither tool); the height RECORDED for an announced header IS verified (UnstableBlocks::insert_next_block_header: parent's announced height or stable height + distance from the anchor, plus one; unconnected headers refused)",
+        "canister/src/main.rs candid dispatch; lib.rs::get_blockchain_info is verified to answer with no precondition on any flag; get_config / http_request contain no guard call (by inspection)",
     ],
-    assumptions=COMMON_ASSUMPTIONS + ["tip height < 2^32 - 2^20 (state_ranges)"],
+    assumptions=COMMON_ASSUMPTIONS + ["tip height < 2^32 - 2^20 (state_ranges)", "stable, unstable and announced heights below 2^31 - 2^17 (heights_in_range)"],
 )
 
 PROPS["C10"] = dict(
